@@ -82,7 +82,7 @@ func (c *appendCombineChecker) matchAppend(stmt ast.Stmt, slice ast.Expr) *ast.C
 	call, ok := assign.Rhs[0].(*ast.CallExpr)
 	{
 		cond := ok &&
-			qualifiedName(call.Fun) == "append" &&
+			resolvedQualifiedName(c.ctx, call.Fun) == "append" &&
 			call.Ellipsis == token.NoPos &&
 			astequal.Expr(assign.Lhs[0], call.Args[0])
 		if !cond {
